@@ -296,6 +296,9 @@ func genReasmCase(rng *rand.Rand, prop string, maxOps int) RCase {
 			if fullWidth && rng.Intn(4) == 0 {
 				off = rng.Intn(W)
 			}
+			if fullWidth && rng.Intn(3) == 0 { // the two ends of the window are exactly maxSortRange apart
+				off = []int{0, W - 1, 1, W - 2, W / 2}[rng.Intn(5)]
+			}
 			if rng.Intn(40) == 0 { // restart of the sequence / very late arrival
 				off = rng.Intn(pos + 1)
 			}
@@ -344,6 +347,18 @@ func genReasmRealCase(rng *rand.Rand) RCase {
 	n := 3 + rng.Intn(10)
 	id := 0
 	pos := 0
+	if rng.Intn(2) == 0 && c.TimeoutNs > 0 && c.TimeoutNs < int64(time.Hour) {
+		// a stale multi-record event: later records must not postpone its deadline
+		typ := []uint16{tSYSCALL, tPATH, tCWD}
+		c.Ops = append(c.Ops, ROp{K: "push", ID: 900, Seq: c.Base, Typ: typ[rng.Intn(3)]})
+		if rng.Intn(2) == 0 {
+			c.Ops = append(c.Ops, ROp{K: "sleep", Ms: toMs / 2}, ROp{K: "push", ID: 901, Seq: c.Base, Typ: typ[rng.Intn(3)]})
+		}
+		c.Ops = append(c.Ops, ROp{K: "sleep", Ms: toMs * 5}, ROp{K: "push", ID: 902, Seq: c.Base, Typ: typ[rng.Intn(3)]})
+		if rng.Intn(2) == 0 {
+			c.Ops = append(c.Ops, ROp{K: "maintain"})
+		}
+	}
 	for i := 0; i < n; i++ {
 		switch x := rng.Intn(10); {
 		case x < 2:
@@ -526,6 +541,12 @@ func reasmMonitor(c RCase, obs []opObs, prop string) (clause string) {
 					return fmt.Sprintf("C10: event %d evicted without cause (incomplete, %d buffered <= max %d, timeout 1h)", gs, len(open), c.Max)
 				}
 			}
+			if op.K != "close" && c.Real && !e.complete && len(open) <= c.Max {
+				// only the timeout can justify this eviction: it must have elapsed
+				if o.T1 < obs[e.firstOp].T0+c.TimeoutNs {
+					return fmt.Sprintf("C19: event %d delivered on account of time before its timeout elapsed", gs)
+				}
+			}
 			// C02 bookkeeping
 			dls = append(dls, dl{gs, i, e.firstOp})
 			// C03 spec
@@ -569,6 +590,18 @@ func reasmMonitor(c RCase, obs []opObs, prop string) (clause string) {
 				if head.complete {
 					return fmt.Sprintf("C10: oldest buffered event %d is complete but was not delivered", head.seq)
 				}
+			}
+		}
+		// C19 (real time): the oldest buffered event must not be one whose timeout certainly elapsed before this call
+		if c.Real && (op.K == "push" || (op.K == "maintain" && !isErr)) && len(open) > 0 {
+			var head *evTrack
+			for _, e := range open {
+				if head == nil || winPos(c.Base, e.seq) < winPos(c.Base, head.seq) {
+					head = e
+				}
+			}
+			if o.T0 > obs[head.firstOp].T1+c.TimeoutNs {
+				return fmt.Sprintf("C19: event %d is the oldest buffered event and its timeout elapsed, but this %s did not deliver it", head.seq, op.K)
 			}
 		}
 		// C19: with an always-elapsed timeout nothing may stay buffered after push/maintain
@@ -887,7 +920,7 @@ func reasmExhaustive(ctx *Ctx, m *common.Model, idx *int, report func(*common.Vi
 		typ uint16
 	}
 	var alpha []sym
-	for _, s := range []uint32{0xFFFFFFFE, 0xFFFFFFFF, 0, 2} {
+	for _, s := range []uint32{0xFFFFFFF0, 0xFFFFFFFF, 0, 0x00FFFFEF} {
 		for _, t := range []uint16{tSYSCALL, tEOE, tPROCTITLE} {
 			alpha = append(alpha, sym{s, t})
 		}
